@@ -151,18 +151,20 @@ theorem squiet_fireSleeper (sl : Sleeper) (s : State) : SQuiet s (fireSleeper sl
     unl := fun u p _ hn => hn
     gone := fun p h => KGMono.setNow s.k _ p h
     reap := fun p st h => Or.inl h
-    ndc := fun p h => KNMono.setNow s.k _ p h }
-  frames := rfl
-  ready := rfl
-  nn := ⟨⟨[], by simp [fireSleeper, modS], fun _ h => by cases h⟩, fun w hw h9 => ⟨w, hw, h9⟩,
-    fun q hq => Or.inl (by
+    ndc := fun p h => KNMono.setNow s.k _ p h
+    kpids := fun q hq => Or.inl (by
       have := (KStep.setNow s.k (max s.k.now sl.deadline)).pids
       simp only [fireSleeper, modS] at hq
-      rw [this] at hq; exact hq),
-    by
+      rw [this] at hq; exact hq)
+    npid := by
       have := (KStep.setNow s.k (max s.k.now sl.deadline)).nextPid
       simp only [fireSleeper, modS]
-      rw [this]; exact Nat.le_refl _⟩
+      rw [this]; exact Nat.le_refl _
+    dpar := fun hp p h => KDMono.setNow s.k _ hp.2 p h
+    objd := fun _ p h => Or.inl h }
+  frames := rfl
+  ready := rfl
+  nn := ⟨⟨[], by simp [fireSleeper, modS], fun _ h => by cases h⟩, fun w hw h9 => ⟨w, hw, h9⟩⟩
 
 /-- a new watcher object (fresh identity, empty `processes`) hides nothing -/
 theorem squietW_registerNew (w : Watcher) (hw : w.pids = []) (s : State) : SQuietW s (registerNew w s).2 := by
@@ -179,7 +181,7 @@ theorem squietW_registerNew (w : Watcher) (hw : w.pids = []) (s : State) : SQuie
         congr 1
         simp only [List.find?_cons, List.find?_nil]
         by_cases hv : s.nextId = v <;> simp [hv]
-      refine ⟨⟨⟨fun o h => h, fun h => h, fun p h => h, ?_, ?_, fun p h => h, fun p st h => Or.inl h, fun p h => h⟩, fun p _ => rfl⟩, rfl, rfl⟩
+      refine ⟨⟨Ext0.ofK ⟨fun o h => h, fun h => h, fun p h => h, ?_, ?_, fun p h => h, fun p st h => Or.inl h, fun p h => h⟩ rfl (fun p h => h), fun p _ => rfl⟩, rfl, rfl⟩
       · intro v h hc
         unfold HookCalled at *
         simp only [getW] at hc ⊢
@@ -201,13 +203,41 @@ theorem squietW_registerNew (w : Watcher) (hw : w.pids = []) (s : State) : SQuie
           · simp [defaultWatcher] at hl
         | some x => rw [hf] at hl; simpa using hl
 
+/-- a successful `Popen()` enters the worker as a child of the daemon -/
+theorem spawn_some_dc (k : Kernel) (pid : Nat) (hlt : ∀ q ∈ k.procs.map (·.pid), q < k.nextPid)
+    (h : (k.spawn).2 = some pid) : (k.spawn).1.DC pid := by
+  have ht := KStep.tick k
+  have hlt1 : ∀ q ∈ k.tick.procs.map (·.pid), q < k.tick.nextPid := by
+    rw [ht.pids, ht.nextPid]; exact hlt
+  simp only [Kernel.spawn] at h ⊢
+  generalize k.tick = k1 at h hlt1 ⊢
+  split at h
+  · cases h
+  · rename_i hx
+    simp only [Option.some.injEq] at h
+    subst h
+    rw [if_neg hx]
+    refine ⟨{ pid := k1.nextPid, ppid := some 0, st := .run, status := 0, doom := none, behav := k1.behavAt }, ?_, rfl⟩
+    simp only [Kernel.find, List.append_assoc]
+    rw [List.find?_append]
+    have hnone : k1.procs.find? (fun p => decide (p.pid = k1.nextPid)) = none := by
+      apply List.find?_eq_none.mpr
+      intro x hx'
+      have := hlt1 x.pid (List.mem_map.mpr ⟨x, hx', rfl⟩)
+      simp only [decide_eq_true_eq]
+      omega
+    rw [hnone]
+    simp
+
 /-- `Popen()`: the new pid is the pid counter's value, above every pid that has a `Process` object -/
 theorem squietW_spawnAdopt (u wid : Nat) (s : State) (hpid : PidInv s) : SQuietW s (spawnAdopt u wid s).2 := by
   cases hr : (s.k.spawn).2 with
   | none =>
     rw [spawnAdopt_none u wid s hr]
-    refine ⟨⟨⟨?_, fun h => h, fun p h => h, fun u h hh => hh, fun u p _ hn => hn, fun p h => KGMono.spawn s.k p h, ?_,
-      fun p h => KNMono.spawn s.k p h⟩, fun p _ => rfl⟩, rfl, rfl⟩
+    have hk : KStep s.k (s.k.spawn).1 := spawn_none (k' := (s.k.spawn).1) (by rw [← hr])
+    refine ⟨⟨⟨⟨?_, fun h => h, fun p h => h, fun u h hh => hh, fun u p _ hn => hn, fun p h => KGMono.spawn s.k p h, ?_,
+      fun p h => KNMono.spawn s.k p h⟩, fun q hq => Or.inl (by rw [← hk.pids]; exact hq), ?_,
+      fun hp p h => KDMono.spawn s.k hp.2 p h, fun _ p h => Or.inl h⟩, fun p _ => rfl⟩, rfl, rfl⟩
     · intro o h
       simp only
       split
@@ -220,12 +250,15 @@ theorem squietW_spawnAdopt (u wid : Nat) (s : State) (hpid : PidInv s) : SQuietW
       · rcases List.mem_append.mp h with h | h
         · exact Or.inl h
         · simp at h
+    · show s.k.nextPid ≤ (s.k.spawn).1.nextPid
+      rw [hk.nextPid]; exact Nat.le_refl _
   | some pid =>
     rw [spawnAdopt_some u wid s pid hr]
-    obtain ⟨hpe, _⟩ := spawn_some (k := s.k) (k' := (s.k.spawn).1) (pid := pid) (by rw [← hr])
+    obtain ⟨hpe, n, hnp, hpr⟩ := spawn_some (k := s.k) (k' := (s.k.spawn).1) (pid := pid) (by rw [← hr])
     have hg : ∀ w : Watcher, (if w.uid = u then { w with pids := w.pids ++ [pid] } else w).uid = w.uid := by
       intro w; split <;> rfl
-    refine ⟨⟨⟨?_, fun h => h, ?_, ?_, ?_, fun p h => KGMono.spawn s.k p h, ?_, fun p h => KNMono.spawn s.k p h⟩, ?_⟩, rfl, rfl⟩
+    refine ⟨⟨⟨⟨?_, fun h => h, ?_, ?_, ?_, fun p h => KGMono.spawn s.k p h, ?_, fun p h => KNMono.spawn s.k p h⟩, ?_, ?_,
+      fun hp p h => KDMono.spawn s.k hp.2 p h, ?_⟩, ?_⟩, rfl, rfl⟩
     · intro o h
       simp only
       split
@@ -271,6 +304,24 @@ theorem squietW_spawnAdopt (u wid : Nat) (s : State) (hpid : PidInv s) : SQuietW
       · rcases List.mem_append.mp h with h | h
         · exact Or.inl h
         · simp at h
+    · intro q hq
+      simp only [hpr] at hq
+      rcases List.mem_append.mp hq with hq | hq
+      · exact Or.inl hq
+      · right
+        simp only [List.mem_range'_1] at hq
+        omega
+    · show s.k.nextPid ≤ (s.k.spawn).1.nextPid
+      rw [hnp]; omega
+    · intro _ p h
+      have h' : p ∈ (s.objs ++ [({ pid := pid, wid := wid, started := s.k.now } : PObj)]).map (fun o : PObj => o.pid) := h
+      rw [List.map_append] at h'
+      rcases List.mem_append.mp h' with h' | h'
+      · exact Or.inl h'
+      · right
+        simp only [List.map_cons, List.map_nil, List.mem_cons, List.mem_nil_iff, or_false] at h'
+        rw [h']
+        exact spawn_some_dc s.k pid hpid.kLt hr
     · intro p ho
       simp only [getO]
       rw [List.find?_append]
@@ -285,18 +336,14 @@ theorem nonine_spawnAdopt (u wid : Nat) (s : State) : NoNine s (spawnAdopt u wid
   cases hr : (s.k.spawn).2 with
   | none =>
     rw [spawnAdopt_none u wid s hr]
-    have hk : KStep s.k (s.k.spawn).1 := spawn_none (k' := (s.k.spawn).1) (by rw [← hr])
-    refine ⟨?_, fun w hw h9 => ⟨w, hw, h9⟩, fun q hq => Or.inl (by rw [← hk.pids]; exact hq), by
-      show s.k.nextPid ≤ (s.k.spawn).1.nextPid
-      rw [hk.nextPid]; exact Nat.le_refl _⟩
+    refine ⟨?_, fun w hw h9 => ⟨w, hw, h9⟩⟩
     simp only
     split
     · exact ⟨[], by simp, fun _ h => by cases h⟩
     · exact ⟨[Obs.execfail], rfl, by simp [Obs.isNine]⟩
   | some pid =>
     rw [spawnAdopt_some u wid s pid hr]
-    obtain ⟨hpe, n, hnp, hpr⟩ := spawn_some (k := s.k) (k' := (s.k.spawn).1) (pid := pid) (by rw [← hr])
-    refine ⟨?_, ?_, ?_, by show s.k.nextPid ≤ (s.k.spawn).1.nextPid; rw [hnp]; omega⟩
+    refine ⟨?_, ?_⟩
     · simp only
       split
       · exact ⟨[], by simp, fun _ h => by cases h⟩
@@ -305,13 +352,6 @@ theorem nonine_spawnAdopt (u wid : Nat) (s : State) : NoNine s (spawnAdopt u wid
       obtain ⟨w, hw, rfl⟩ := List.mem_map.mp hw'
       refine ⟨w, hw, ?_⟩
       split at h9 <;> exact h9
-    · intro q hq
-      simp only [hpr] at hq
-      rcases List.mem_append.mp hq with hq | hq
-      · exact Or.inl hq
-      · right
-        simp only [List.mem_range'_1] at hq
-        omega
 
 theorem squiet_spawnAdopt (u wid : Nat) (s : State) (hpid : PidInv s) : SQuiet s (spawnAdopt u wid s).2 :=
   ⟨squietW_spawnAdopt u wid s hpid, nonine_spawnAdopt u wid s⟩
@@ -384,9 +424,9 @@ theorem fireSleeper_si (sl : Sleeper) : Pres (SI J) (fireSleeper sl) := SI.pres_
 theorem spawnAdopt_si (u wid : Nat) : Pres (SI J) (spawnAdopt u wid) :=
   fun s h => h.of_quiet (pidLeafX.spawnAdopt u wid s h.pid) (squiet_spawnAdopt u wid s h.pid)
 theorem emit_si (o : Obs) (ho : o.isReap = false) (hn : o.isNine = false) : Pres (SI J) (emit o) := (siLeafS0 J).emit o ho hn
-theorem updK_si (f : Kernel → Kernel) (hf : ∀ k, KGMono k (f k)) (hn : ∀ k, KNMono k (f k)) (hs : ∀ k, KStep k (f k)) :
-    Pres (SI J) (updK f) :=
-  SI.pres_quiet (squiet_updK f hf hn hs) (updK_pres pidLeafW.toLeafK f hs)
+theorem updK_si (f : Kernel → Kernel) (hf : ∀ k, KGMono k (f k)) (hn : ∀ k, KNMono k (f k)) (hs : ∀ k, KStep k (f k))
+    (hd : ∀ k, k.PosK → KDMono k (f k)) : Pres (SI J) (updK f) :=
+  SI.pres_quiet (squiet_updK f hf hn hs hd) (updK_pres pidLeafW.toLeafK f hs)
 
 end
 
@@ -408,7 +448,7 @@ theorem Ext.of_heap {s s' : State} (hl : s'.log = s.log) (hb : s'.blocked = s.bl
     (hw : s'.ws = s.ws) (hk : s'.k = s.k) : Ext s s' :=
   (SQuiet.of_eq (s' := { s' with frames := s.frames, ready := s.ready }) hl hb ho hw hk rfl rfl).ext |> fun e =>
     { log := e.log, blocked := e.blocked, obj := e.obj, hook := e.hook, unl := e.unl, gone := e.gone, reap := e.reap,
-      ndc := e.ndc, stop := e.stop }
+      ndc := e.ndc, kpids := e.kpids, npid := e.npid, dpar := e.dpar, objd := e.objd, stop := e.stop }
 
 theorem countP_le_of_imp {α : Type} (l : List α) (p q : α → Bool) (h : ∀ x ∈ l, p x = true → q x = true) :
     l.countP p ≤ l.countP q := List.countP_mono_left h
@@ -436,7 +476,7 @@ theorem pendCount_pos_of_ready {s : State} {r : Ready} {p : Nat} (hr : r ∈ s.r
 theorem pushFrame_si (f : Frame) (s : State) (h : SI J s) (hk : KOk s f.k)
     (hc : ∀ p, f.k.loopPid = some p → pendCount s p = 0) : SI J (pushFrame f s).2 := by
   have e : Ext s (pushFrame f s).2 := Ext.of_heap rfl rfl rfl rfl rfl
-  refine ⟨pidLeafX.pushFrame f s h.pid, ?_, ?_, ?_, h.reap, fun jm hj => (h.just jm hj).mono e.toExt0 (NoNine.of_eq rfl rfl rfl)⟩
+  refine ⟨pidLeafX.pushFrame f s h.pid, ?_, ?_, ?_, h.reap, h.pos, h.wpar, fun jm hj => (h.just jm hj).mono e.toExt0 (NoNine.of_eq rfl rfl rfl)⟩
   · intro g hg
     simp only [pushFrame, modS] at hg
     rcases List.mem_append.mp hg with hg | hg
@@ -458,7 +498,7 @@ theorem pushFrame_si (f : Frame) (s : State) (h : SI J s) (hk : KOk s f.k)
 theorem removeFrame_si (fid : Nat) : Pres (SI J) (removeFrame fid) := by
   intro s h
   have e : Ext s (removeFrame fid s).2 := Ext.of_heap rfl rfl rfl rfl rfl
-  refine ⟨pidLeafX.removeFrame fid s h.pid, ?_, ?_, ?_, h.reap, fun jm hj => (h.just jm hj).mono e.toExt0 (NoNine.of_eq rfl rfl rfl)⟩
+  refine ⟨pidLeafX.removeFrame fid s h.pid, ?_, ?_, ?_, h.reap, h.pos, h.wpar, fun jm hj => (h.just jm hj).mono e.toExt0 (NoNine.of_eq rfl rfl rfl)⟩
   · intro g hg
     simp only [removeFrame, modS] at hg
     exact (h.fr g (List.mem_filter.mp hg).1).mono e
@@ -492,7 +532,7 @@ theorem pendCount_removeFrame {s : State} (h : SI J s) {f : Frame} (hf : f ∈ s
 theorem armFrame_si (fid : Nat) : Pres (SI J) (armFrame fid) := by
   intro s h
   have e : Ext s (armFrame fid s).2 := Ext.of_heap rfl rfl rfl rfl rfl
-  refine ⟨pidLeafX.armFrame fid s h.pid, ?_, ?_, ?_, h.reap, fun jm hj => (h.just jm hj).mono e.toExt0 (NoNine.of_eq rfl rfl rfl)⟩
+  refine ⟨pidLeafX.armFrame fid s h.pid, ?_, ?_, ?_, h.reap, h.pos, h.wpar, fun jm hj => (h.just jm hj).mono e.toExt0 (NoNine.of_eq rfl rfl rfl)⟩
   · intro g hg
     simp only [armFrame, modS] at hg
     obtain ⟨g0, hg0, rfl⟩ := List.mem_map.mp hg
@@ -514,7 +554,7 @@ theorem armFrame_si (fid : Nat) : Pres (SI J) (armFrame fid) := by
 theorem setFrameK_si (fid : Nat) (k : Kont) (hk : k.free = true) : Pres (SI J) (setFrameK fid k) := by
   intro s h
   have e : Ext s (setFrameK fid k s).2 := Ext.of_heap rfl rfl rfl rfl rfl
-  refine ⟨pidLeafX.setFrameK fid k s h.pid, ?_, ?_, ?_, h.reap, fun jm hj => (h.just jm hj).mono e.toExt0 (NoNine.of_eq rfl rfl rfl)⟩
+  refine ⟨pidLeafX.setFrameK fid k s h.pid, ?_, ?_, ?_, h.reap, h.pos, h.wpar, fun jm hj => (h.just jm hj).mono e.toExt0 (NoNine.of_eq rfl rfl rfl)⟩
   · intro g hg
     simp only [setFrameK, modS] at hg
     obtain ⟨g0, hg0, rfl⟩ := List.mem_map.mp hg
@@ -540,7 +580,7 @@ theorem setFrameK_si (fid : Nat) (k : Kont) (hk : k.free = true) : Pres (SI J) (
 theorem enqueue_si (r : Ready) (s : State) (h : SI J s) (hk : ∀ k, r.kont = some k → KOk s k)
     (hc : ∀ p, r.loopPid = some p → pendCount s p = 0) : SI J (enqueue r s).2 := by
   have e : Ext s (enqueue r s).2 := Ext.of_heap rfl rfl rfl rfl rfl
-  refine ⟨pidLeafX.enqueue r s h.pid, ?_, ?_, ?_, h.reap, fun jm hj => (h.just jm hj).mono e.toExt0 (NoNine.of_eq rfl rfl rfl)⟩
+  refine ⟨pidLeafX.enqueue r s h.pid, ?_, ?_, ?_, h.reap, h.pos, h.wpar, fun jm hj => (h.just jm hj).mono e.toExt0 (NoNine.of_eq rfl rfl rfl)⟩
   · intro g hg
     exact (h.fr g hg).mono e
   · intro r' hr' k hrk
@@ -577,7 +617,7 @@ theorem enqueueResume_free_si (k : Kont) (v : Val) (w : Waiter) (hk : k.free = t
 theorem dequeue_si : Pres (SI J) dequeue := by
   intro s h
   have e : Ext s (dequeue s).2 := Ext.of_heap rfl rfl rfl rfl rfl
-  refine ⟨pidLeafX.dequeue s h.pid, ?_, ?_, ?_, h.reap, fun jm hj => (h.just jm hj).mono e.toExt0 (NoNine.of_eq rfl rfl rfl)⟩
+  refine ⟨pidLeafX.dequeue s h.pid, ?_, ?_, ?_, h.reap, h.pos, h.wpar, fun jm hj => (h.just jm hj).mono e.toExt0 (NoNine.of_eq rfl rfl rfl)⟩
   · intro g hg
     exact (h.fr g hg).mono e
   · intro r hr k hrk
@@ -609,9 +649,19 @@ theorem taskOk_dequeue {s : State} (h : SI J s) {k : Kont} {v : Val} {w : Waiter
 /-! ### the `stopping` flag -/
 
 theorem ext0_setObjStopping (p : Nat) (b : Bool) (s : State) : Ext0 s (setObjStopping p b s).2 := by
-  refine ⟨fun o h => h, fun h => h, ?_, fun u h hh => hh, fun u q _ hn => hn, fun q h => h, fun q st h => Or.inl h, fun q h => h⟩
-  intro q h
-  exact (hasObjLeafX q).setObjStopping p b s h
+  have hmap : (setObjStopping p b s).2.objs.map (·.pid) = s.objs.map (·.pid) := by
+    simp only [setObjStopping, modO, modS, List.map_map]
+    have : (fun o : PObj => o.pid) ∘ (fun o => if o.pid = p then { o with stopping := b } else o) = fun o => o.pid := by
+      funext o; simp only [Function.comp]; split <;> rfl
+    rw [this]
+  refine Ext0.ofK ⟨fun o h => h, fun h => h, ?_, fun u h hh => hh, fun u q _ hn => hn, fun q h => h, fun q st h => Or.inl h,
+    fun q h => h⟩ rfl ?_
+  · intro q h
+    unfold HasObj at *
+    rw [hmap]; exact h
+  · intro q h
+    unfold HasObj at *
+    rw [hmap] at h; exact h
 
 theorem stopping_setObjStopping_ne (p q : Nat) (b : Bool) (s : State) (hne : q ≠ p) :
     (getO q (setObjStopping p b s).2).1.stopping = (getO q s).1.stopping := by
@@ -655,7 +705,7 @@ theorem setObjStopping_true_si (p : Nat) : Pres (SI J) (setObjStopping p true) :
     · subst hqp
       exact stopping_setObjStopping_self q true s hl.obj
     · rw [stopping_setObjStopping_ne p q true s hqp]; exact hl.stopping
-  refine ⟨pidLeafW.setObjStopping p true s h.pid, ?_, ?_, h.uniq, h.reap, fun jm hj => (h.just jm hj).mono e0 (NoNine.of_eq rfl rfl rfl)⟩
+  refine ⟨pidLeafW.setObjStopping p true s h.pid, ?_, ?_, h.uniq, h.reap, h.pos.ext e0, SI.wpar_ext h.pos h.wpar e0, fun jm hj => (h.just jm hj).mono e0 (NoNine.of_eq rfl rfl rfl)⟩
   · intro g hg
     exact (h.fr g hg).mono0 e0 (hst _ (h.fr g hg))
   · intro r hr k hrk
@@ -671,7 +721,7 @@ theorem setObjStopping_false_si (p : Nat) (s : State) (h : SI J s) (hc : pendCou
     have hl : LoopOk s _ _ _ _ _ := hk
     unfold Stopping
     rw [stopping_setObjStopping_ne p q false s hqp]; exact hl.stopping
-  refine ⟨pidLeafW.setObjStopping p false s h.pid, ?_, ?_, h.uniq, h.reap, fun jm hj => (h.just jm hj).mono e0 (NoNine.of_eq rfl rfl rfl)⟩
+  refine ⟨pidLeafW.setObjStopping p false s h.pid, ?_, ?_, h.uniq, h.reap, h.pos.ext e0, SI.wpar_ext h.pos h.wpar e0, fun jm hj => (h.just jm hj).mono e0 (NoNine.of_eq rfl rfl rfl)⟩
   · intro g hg
     refine (h.fr g hg).mono0 e0 (hst _ (h.fr g hg) ?_)
     intro q hq hqp
